@@ -5,7 +5,9 @@
 #include "tree_builder.h"
 #include "hashchain.h"
 #include "env/tree_env.h"
+#include "contracts/tree_builder_addnode.h"
 #include "contracts/tree_builder_join.h"
+#include "contracts/tree_builder_insert.h"
 #include "tree_builder.c"
 
 struct KSI_CTX_st { int dummy; };
@@ -53,5 +55,59 @@ void harness(void) {
 	if (res == KSI_OK && root->level == 0xff) REACH("join accepted at level 255");
 	if (res != KSI_OK && l != NULL && r != NULL && ctx != NULL && l->level <= 0xff && r->level <= 0xff && !g_tr_failed) REACH("join refused for level overflow or memory");
 	if (res != KSI_OK && g_tr_failed) REACH("join refused after hasher error");
+}
+#endif
+
+/* builder whose 256 slots are each empty or hold the representative occupant (childless); written out
+ * without a loop so that contract mode needs no unwinding */
+static KSI_TreeBuilder g_tb;
+static KSI_DataHasher g_hsr;
+#define SLOT1(i) g_tb.stack[i] = nondet_bool() ? &g_occ : NULL;
+#define SLOT4(i) SLOT1(i) SLOT1(i + 1) SLOT1(i + 2) SLOT1(i + 3)
+#define SLOT16(i) SLOT4(i) SLOT4(i + 4) SLOT4(i + 8) SLOT4(i + 12)
+#define SLOT64(i) SLOT16(i) SLOT16(i + 16) SLOT16(i + 32) SLOT16(i + 48)
+static void mk_builder(void) {
+	g_tb.ctx = &g_ctx_obj; g_tb.ref = 1; g_tb.rootNode = NULL; g_tb.algo = KSI_HASHALG_SHA2_256;
+	g_tb.cbList = NULL; g_tb.hsr = &g_hsr; g_tb.maxTreeLevel = (short)nondet_int();
+	g_occ_hash.ref = 1000; g_occ_hash.ctx = NULL;
+	g_occ.hash = &g_occ_hash; g_occ.metaData = NULL; g_occ.ctx = &g_ctx_obj; g_occ.leftChild = NULL; g_occ.rightChild = NULL;
+	g_occ.level = nondet_uint(); g_occ.parent = NULL;
+	SLOT64(0) SLOT64(64) SLOT64(128) SLOT64(192)
+	g_w1 = nondet_size(); g_w2 = nondet_size();
+}
+
+#ifdef H_insert
+void harness(void) {
+	KSI_TreeNode *node = nondet_bool() ? mk_node() : NULL;
+	KSI_TreeBuilder *b = nondet_bool() ? &g_tb : NULL;
+	int at = nondet_int();
+	int res;
+	mk_builder();
+	tr_init();
+	res = insertNode(b, node, at);
+	REACH("insertNode returns");
+	if (res == KSI_OK) REACH("accepted");
+	if (res == KSI_OK && g_tb.stack[at] == node) REACH("accepted into an empty slot");
+	if (res == KSI_OK && g_tb.stack[at] == NULL) REACH("accepted with a carry");
+	if (res == KSI_OK && at == 254 && g_tb.stack[at] == NULL) REACH("accepted with a carry into slot 255");
+	if (res != KSI_OK && b != NULL && node != NULL && node->level <= 0xff) REACH("refused during the carry");
+}
+#endif
+
+#ifdef H_addnode
+void harness(void) {
+	KSI_DataHasher hsr;
+	KSI_TreeNode *n = nondet_bool() ? mk_node() : NULL;
+	int res;
+	tr_init();
+	g_tr_n = nondet_uint();
+	g_tr_failed = nondet_bool();
+	if (nondet_bool()) g_tr_hsr = &hsr;
+	res = KSI_DataHasher_addTreeNode(nondet_bool() ? &hsr : NULL, n);
+	REACH("addTreeNode returns");
+	if (res == KSI_OK && n->hash != NULL) REACH("hash node added");
+	if (res == KSI_OK && n->hash == NULL && n->metaData != NULL) REACH("meta-data node added");
+	if (res == KSI_OK && g_tr_n == TR_MAX) REACH("transcript saturated");
+	if (res != KSI_OK && n != NULL) REACH("hasher or serializer failed");
 }
 #endif
